@@ -63,6 +63,7 @@ def gen(S, tier):
         "coding": w.chance(0.2), "preamble_docstring": w.chance(0.3), "markup": w.chance(0.3),
         "bad_markup": w.chance(0.12), "multiline_string": w.chance(0.3), "multiline_call": w.chance(0.3),
         "no_trailing_lines": w.chance(0.2), "odd_separators": w.chance(0.15),
+        "leading_continuation": w.chance(0.05),
     }
     if c.chance(0.12):
         # a failure inside a real file of the standard library: the snippet is checked against the file on disk
@@ -108,7 +109,7 @@ def _real_raise(name):
     if name == "json_loads":
         json.loads('{"a": ')
     elif name == "ast_literal_eval":
-        ast.literal_eval("[1, 2, open('x')]")
+        ast.literal_eval("{1: 2, **{}}")  # "malformed node" - an input whose message carries no object address
     elif name == "configparser_read":
         configparser.ConfigParser().read_string("[s]\nkey value without separator\n= x")
     elif name == "int_in_fraction":
@@ -271,7 +272,7 @@ def _run_real(sc, res, log):
     except Exception:
         return
     for i, l in enumerate(src.lines, 1):
-        if "<" in l or "\\" in l or "\t" in l or "\x0c" in l:
+        if "<" in l or "\t" in l or "\x0c" in l:
             src.markup.add(i)
     _check_snippet(sc, res, text, src, lineno, path)
 
